@@ -6,6 +6,7 @@
  *   hist <ops>               one case on the current disk.  ops: comma list over
  *                              V zck_validate_checksums   D zck_validate_data_checksum   F zck_find_valid_chunks
  *                              X zck_reset_failed_chunks   M zck_missing_chunks / zck_failed_chunks (counts only)
+ *                              G<limit> zck_get_missing_range + zck_get_range_char, released again
  *                              Q zck_find_matching_chunks(peer, this)  C<i> zck_get_chunk_data(chunk i)  S<i> ..comp_data(chunk i)
  *   recover <0|1>            final read clears the error after every failed read and reads on
  *                              r<k> one zck_read of k bytes; what it returns is put in front of the final read's content
@@ -72,6 +73,12 @@ static void run_one(int idx, FILE *out, void *vctx) {
             zckChunk *ch = zck_get_chunk(zck, atoi(o + 1));
             char tmp[4096];
             r = !ch ? -9 : o[0] == 'C' ? zck_get_chunk_data(ch, tmp, sizeof tmp) : zck_get_chunk_comp_data(ch, tmp, sizeof tmp);
+            break;
+        }
+        case 'G': {     /* a missing-range request (limit follows the letter), rendered and released */
+            zckRange *rg = zck_get_missing_range(zck, atoi(o + 1));
+            r = rg ? zck_get_range_count(rg) : -9;
+            if(rg) { char *rs = zck_get_range_char(zck, rg); free(rs); zck_range_free(&rg); }
             break;
         }
         case '-': continue;
